@@ -136,6 +136,16 @@ BilinearC(e) == LET N == Pow2(e.d)
      <<"missing_corner", \A k, m \in 1..4 : (k < m /\ e.cells[k] = e.cells[m]) => (e.cells[k] = c /\ (e.w[k] = 0 \/ e.w[m] = 0)
                                               /\ \E d \in Cardinals : NeighAt(N, c, d) = {})>> >>
 
+(* ---- cell-size helpers (C16): the inequalities are measured by the bridge (deficit in 1e-6 of the true value) ---- *)
+TolDeficit == 1          \* 1e-6 relative
+C2vC(e) == << <<"panic", e.p = 0>>, <<"is_a_bound", e.p = 1 \/ e.deficit <= TolDeficit>> >>
+C2vRadiusC(e) == << <<"panic", e.p = 0>>, <<"bound_with_radius", e.p = 1 \/ e.deficit <= TolDeficit>>,
+                    <<"bounds_array", e.p = 1 \/ (e.len_ok = 1 /\ e.deficit_arr <= TolDeficit)>> >>
+(* at the best starting depth, every cell that provably contains a point of the cone is the centre's cell or adjacent to it *)
+Fits9C(e) == LET N == Pow2(e.d) IN
+  << <<"panic", e.p = 0>>,
+     <<"cone_in_cell_and_neighbours", e.p = 1 \/ LET ng == Neigh(N, e.c) IN \A k \in 1..Len(e.wit) : e.wit[k] = e.c \/ e.wit[k] \in ng>> >>
+
 Clauses(e) == CASE e.ev = "hash" -> HashC(e)
                 [] e.ev = "hash_bad" -> HashBadC(e)
                 [] e.ev = "hier" -> HierC(e)
@@ -152,6 +162,9 @@ Clauses(e) == CASE e.ev = "hash" -> HashC(e)
                 [] e.ev = "cell_bad" -> CellBadC(e)
                 [] e.ev = "hash_dxdy" -> HashDxDyC(e)
                 [] e.ev = "bilinear" -> BilinearC(e)
+                [] e.ev = "c2v" -> C2vC(e)
+                [] e.ev = "c2v_radius" -> C2vRadiusC(e)
+                [] e.ev = "fits9" -> Fits9C(e)
                 [] e.ev = "proj" -> ProjC(e)
                 [] e.ev = "proj_bad" -> ProjBadC(e)
                 [] e.ev = "zoc" -> ZocC(e)
